@@ -92,43 +92,51 @@ ParseAll(data, bl) ==
 
 \* --- the two receive loops as step machines.  One behaviour = one stream, one flavour, one segmentation
 \* (chosen read by read), receive called until the first terminal outcome and then ONCE MORE (`again`).
+\* The steps are pure operators on a state record (PParse / PRead / PEof): the exhaustive model below and the
+\* hook-level trace specification ReceiveTrace.tla (events recorded inside the real receive loops) use the same ones.
+St0(sidv, flv) == [sid |-> sidv, fl |-> flv, pos |-> 0, data |-> <<>>, bl |-> B0, filled |-> 0, blen |-> Cap0, bcap |-> Cap0,
+                   out |-> <<>>, again |-> "", phase |-> "parse", nreads |-> 0]
+Extra(s) == s.out # <<>> /\ s.out[Len(s.out)].t # "resp"              \* this is the extra call after a terminal outcome
+PTerm(s, t) == IF Extra(s) THEN [s EXCEPT !.again = t, !.phase = "done"]
+               ELSE [s EXCEPT !.out = Append(@, Out(t, NoResp)), !.phase = "parse"]
+\* one parse phase of one loop iteration of receive()
+PParse(s) ==
+  IF s.fl = "sync" /\ s.filled > s.bcap THEN PTerm(s, "PANIC")      \* split_off(total_received) precondition violated: panic
+  ELSE LET p == ParseAll(s.data, s.bl)
+           k == Len(s.data) - Len(p.data)
+           s1 == [s EXCEPT !.data = p.data] IN
+       IF p.res = "resp" THEN
+          LET s2 == IF Extra(s) THEN [s1 EXCEPT !.again = "resp", !.phase = "done"]
+                    ELSE [s1 EXCEPT !.out = Append(@, Out("resp", p.resp)), !.phase = "parse"] IN
+          [s2 EXCEPT !.bl = B0, !.filled = s.filled - k]
+       ELSE IF p.res = "invalid" THEN
+          LET s2 == [PTerm(s1, "invalid") EXCEPT !.bl = B0] IN
+          IF s.fl = "sync" /\ ~FixedSync THEN [s2 EXCEPT !.blen = s.filled - k, !.bcap = s.filled - k]   \* early return: no unsplit/resize
+          ELSE [s2 EXCEPT !.filled = s.filled - k]
+       ELSE [s1 EXCEPT !.bl = p.bl, !.phase = "read", !.filled = s.filled - k]
+\* one successful read of n bytes (sync: into the window [filled, blen), doubling when the window is now full)
+PRead(s, n) ==
+  LET grow == s.fl = "sync" /\ s.blen = s.filled + n IN
+  [s EXCEPT !.data = @ \o SubSeq(Streams[s.sid], s.pos + 1, s.pos + n), !.pos = @ + n, !.filled = @ + n,
+            !.blen = IF grow THEN 2 * @ ELSE @, !.bcap = IF grow THEN 2 * s.blen ELSE @, !.phase = "parse", !.nreads = @ + 1]
+\* a read that returns 0 bytes
+PEof(s) == [PTerm(s, IF s.bl.st # "init" \/ (IF s.fl = "sync" THEN s.filled # 0 ELSE s.data # <<>>) THEN "ueof" ELSE "clean")
+              EXCEPT !.bl = B0, !.nreads = @ + 1]
+
 VARIABLES sid, fl, pos, data, bl, filled, blen, bcap, out, again, phase, nreads
 vars == <<sid, fl, pos, data, bl, filled, blen, bcap, out, again, phase, nreads>>
 Stream == Streams[sid]
-Init == /\ sid \in 1..Len(Streams) /\ fl \in {"async", "sync"} /\ pos = 0 /\ data = <<>> /\ bl = B0
-        /\ filled = 0 /\ blen = Cap0 /\ bcap = Cap0 /\ out = <<>> /\ again = "" /\ phase = "parse" /\ nreads = 0
-Term(t) == IF out # <<>> /\ out[Len(out)].t # "resp"            \* this was the extra call
-           THEN /\ again' = t /\ out' = out /\ phase' = "done"
-           ELSE /\ out' = Append(out, Out(t, NoResp)) /\ again' = again /\ phase' = "parse"
-\* one parse phase of one loop iteration of receive()
-Parse ==
-  /\ phase = "parse"
-  /\ IF fl = "sync" /\ filled > bcap THEN      \* split_off(total_received) precondition violated: panic
-        /\ Term("PANIC") /\ UNCHANGED <<sid, fl, pos, data, bl, filled, blen, bcap, nreads>>
-     ELSE LET p == ParseAll(data, bl)  k == Len(data) - Len(p.data) IN
-        /\ data' = p.data
-        /\ IF p.res = "resp" THEN
-              /\ (IF out # <<>> /\ out[Len(out)].t # "resp" THEN again' = "resp" /\ out' = out /\ phase' = "done"
-                  ELSE out' = Append(out, Out("resp", p.resp)) /\ again' = again /\ phase' = "parse")
-              /\ bl' = B0 /\ filled' = filled - k /\ UNCHANGED <<blen, bcap>>
-           ELSE IF p.res = "invalid" THEN
-              /\ Term("invalid") /\ bl' = B0
-              /\ IF fl = "sync" /\ ~FixedSync THEN filled' = filled /\ blen' = filled - k /\ bcap' = filled - k   \* early return: no unsplit/resize
-                 ELSE filled' = filled - k /\ UNCHANGED <<blen, bcap>>
-           ELSE /\ out' = out /\ again' = again /\ bl' = p.bl /\ phase' = "read"
-                /\ filled' = filled - k /\ UNCHANGED <<blen, bcap>>
-        /\ UNCHANGED <<sid, fl, pos, nreads>>
+Cur == [sid |-> sid, fl |-> fl, pos |-> pos, data |-> data, bl |-> bl, filled |-> filled, blen |-> blen, bcap |-> bcap,
+        out |-> out, again |-> again, phase |-> phase, nreads |-> nreads]
+Become(n) == /\ sid' = n.sid /\ fl' = n.fl /\ pos' = n.pos /\ data' = n.data /\ bl' = n.bl /\ filled' = n.filled /\ blen' = n.blen
+             /\ bcap' = n.bcap /\ out' = n.out /\ again' = n.again /\ phase' = n.phase /\ nreads' = n.nreads
+Init == \E i \in 1..Len(Streams), f \in {"async", "sync"} : (LET n == St0(i, f) IN
+          /\ sid = n.sid /\ fl = n.fl /\ pos = n.pos /\ data = n.data /\ bl = n.bl /\ filled = n.filled /\ blen = n.blen
+          /\ bcap = n.bcap /\ out = n.out /\ again = n.again /\ phase = n.phase /\ nreads = n.nreads)
+Parse == phase = "parse" /\ Become(PParse(Cur))
 Read == /\ phase = "read" /\ pos < Len(Stream)
-        /\ \E n \in 1..(Len(Stream) - pos) :
-             /\ (fl = "sync" => n <= blen - filled)
-             /\ data' = data \o SubSeq(Stream, pos + 1, pos + n) /\ pos' = pos + n
-             /\ filled' = filled + n
-             /\ IF fl = "sync" /\ blen = filled + n THEN blen' = 2 * blen /\ bcap' = 2 * blen ELSE UNCHANGED <<blen, bcap>>
-        /\ phase' = "parse" /\ nreads' = nreads + 1 /\ UNCHANGED <<sid, fl, bl, out, again>>
-Eof == /\ phase = "read" /\ pos = Len(Stream)
-       /\ Term(IF bl.st # "init" \/ (IF fl = "sync" THEN filled # 0 ELSE data # <<>>) THEN "ueof" ELSE "clean")
-       /\ bl' = B0 /\ nreads' = nreads + 1
-       /\ UNCHANGED <<sid, fl, pos, data, filled, blen, bcap>>
+        /\ \E n \in 1..(Len(Stream) - pos) : (fl = "sync" => n <= blen - filled) /\ Become(PRead(Cur, n))
+Eof == phase = "read" /\ pos = Len(Stream) /\ Become(PEof(Cur))
 ZeroWindow == phase = "read" /\ fl = "sync" /\ blen - filled = 0     \* a read into an empty window would look like EOF
 Next == Parse \/ Read \/ Eof
 Spec == Init /\ [][Next]_vars
